@@ -21,12 +21,13 @@ type Case struct {
 	Inputs     [][]byte `json:"inputs"` // hostile byte strings (rtp-in / rtcp-in)
 	OutHeader  []byte   `json:"out_header,omitempty"`
 	OutPayload int      `json:"out_payload,omitempty"`
-	OutMore    []int    `json:"out_more,omitempty"` // further outgoing payload sizes, written right after the first with consecutive sequence numbers
+	OutPadding byte     `json:"out_padding,omitempty"` // padding count of the outgoing packets when the header has the padding bit (the count is not part of the header bytes)
+	OutMore    []int    `json:"out_more,omitempty"`    // further outgoing payload sizes, written right after the first with consecutive sequence numbers
 	Dirty      byte     `json:"dirty"`
 	SpareCap   bool     `json:"spare_cap,omitempty"` // the short caller buffer is a sub-slice of a larger one (len < cap): still only len bytes are the caller's to fill
-	ReadBuf    int      `json:"read_buf,omitempty"` // size of the caller's buffer for the hostile reads (0: 1700 bytes); a short one truncates like a datagram read
-	Fast       bool     `json:"fast,omitempty"` // fuzzing: skip the pauses that let ticker goroutines run
-	Order      uint64   `json:"order,omitempty"` // "chain": 0 keeps the catalog order, otherwise the seed of a permutation of the members
+	ReadBuf    int      `json:"read_buf,omitempty"`  // size of the caller's buffer for the hostile reads (0: 1700 bytes); a short one truncates like a datagram read
+	Fast       bool     `json:"fast,omitempty"`      // fuzzing: skip the pauses that let ticker goroutines run
+	Order      uint64   `json:"order,omitempty"`     // "chain": 0 keeps the catalog order, otherwise the seed of a permutation of the members
 }
 
 const (
@@ -148,7 +149,7 @@ func execute(c *Case) string { //nolint:cyclop
 			if c.SpareCap {
 				buf = buf[:c.ReadBuf-1] // len < cap (1700)
 			} else {
-				buf = buf[:c.ReadBuf-1 : c.ReadBuf-1] // ReadBuf 1 is the empty buffer
+				buf = buf[: c.ReadBuf-1 : c.ReadBuf-1] // ReadBuf 1 is the empty buffer
 			}
 			if len(raw) > len(buf) {
 				raw = raw[:len(buf)] // what the transport hands over
@@ -182,7 +183,7 @@ func execute(c *Case) string { //nolint:cyclop
 		r.rtcpSrc.Push(raw)
 		buf := bytes.Repeat([]byte{c.Dirty}, 1700+len(raw))
 		if !wellFormed && c.ReadBuf > 0 {
-			buf = buf[:c.ReadBuf-1 : c.ReadBuf-1]
+			buf = buf[: c.ReadBuf-1 : c.ReadBuf-1]
 			if len(raw) > len(buf) {
 				raw = raw[:len(buf)]
 			}
@@ -247,6 +248,9 @@ func execute(c *Case) string { //nolint:cyclop
 			return "harness: out header: " + err.Error()
 		}
 		h.SSRC = 0x6001
+		if h.Padding {
+			h.PaddingSize = max(1, c.OutPadding)
+		}
 		// consecutive with the history, so that batching members (FEC) take the packet into their next batch
 		for i, size := range append([]int{c.OutPayload}, c.OutMore...) {
 			hh := h.Clone()
